@@ -659,9 +659,12 @@ class Interp:
             # (same disk) carries on.  The archive must be complete: the last committed
             # content, or - if the kill hit close() after its commit point - the new one.
             sess = self.model.sess
-            self.sm.dead = False
             self.eko = None
             self.model.sess = None
+            import gc
+
+            gc.collect()  # the dead process's objects go away now (their files are severed)
+            self.sm.dead = False
             self.probes["sessions_killed"] = self.probes.get("sessions_killed", 0) + 1
             with self.sm.paused():
                 st = archive.logical_or_state(str(self.path), os.path.exists)
